@@ -80,6 +80,9 @@ def plan(tier, seed):
         shards.append(("subsets", lo))
     for n1 in range(len(UNKNOWN_NAMES)):
         shards.append(("unknown", n1, tier))
+    for nl in ("\n", "\r\n"):
+        for lo in range(0, 28, 4):
+            shards.append(("big", nl, lo))
     return dict(shards=shards, bounds=dict(permuted_sections=nperm, newline=["LF", "CRLF"], entry_points=list(VIAS), unknown_names=list(UNKNOWN_NAMES), unknown_sections_max=2), budget_s=600)
 
 
@@ -102,8 +105,37 @@ def warn_count(text):
     return out[2] if out[0] == "ok" else None
 
 
+def big_text(nl, pad):
+    """A chart of about 1.4 * 10^5 characters: a long track, a long unknown section and `pad` extra
+    characters in the FIRST line of the first unknown section, so that sweeping pad over 0..27 moves every
+    later line break across every possible block boundary of any chunked reader."""
+    notes = []
+    for i in range(6000):
+        notes.append("%d = N %d %d" % (3 * i, i % 5, i % 4))
+        if i % 50 == 0:
+            notes.append("%d = S 2 7" % (3 * i))
+    filler = ["x" * pad + "filler"] + ["line %d of an unknown section" % i for i in range(300)]
+    ev = ['%d = E "lyric w%d"' % (5 * i, i) for i in range(1500)]
+    secs = [("Pad", filler[:1]), SONG, ("Foo", filler[1:100]), SYNC, ("Events", ev), ("ExpertSingle", notes), ("Bar", filler[1:300]), TRACK_B, ("Baz", filler[1:200])]
+    return render(secs, nl)
+
+
 def run_shard(shard, ctx):
     kind = shard[0]
+    if kind == "big":
+        _, nl, lo = shard
+        for pad in range(lo, lo + 4):
+            text = big_text(nl, pad)
+            got = check(ctx, text, "file", "chart of %d characters, newline %r, padding %d" % (len(text), nl, pad), sample=lambda: dict(characters=len(text), newline=nl, pad=pad))
+            # each parser received exactly its body lines: no line is reported as unparsable in this chart
+            # (4 warning records: the four unknown sections)
+            w = warn_count(text)
+            small = render([("Pad", ["filler"]), SONG, ("Foo", ["a"]), SYNC, EVENTS, TRACK_A, ("Bar", ["b"]), TRACK_B, ("Baz", ["c"])])
+            w_small = warn_count(small)  # the same section structure in miniature: differential, wording-free
+            ctx.evaluations += 1
+            if got[0] == "ok" and w_small is not None and w != w_small:
+                ctx.violation("framing-warnings", dict(text=text, kind="addtrack", base=small, k=0), "chart of %d characters (newline %r, padding %d): %d warning records, but %d for the same section structure in miniature - a parser was handed a line that is not a body line of its section" % (len(text), nl, pad, w, w_small), script=_warn_script(small, text, 0))
+        return
     if kind == "perm":
         _, n, first, nl = shard
         secs = [SONG, SYNC, EVENTS, TRACK_A, TRACK_B, TRACK_C, TRACK_D][:n]
